@@ -581,6 +581,10 @@ pub struct Obs {
     pub client: BTreeMap<usize, (ClientOutcome, u64)>,
     /// virtual ms at which the request future resolved (response head or error), per request
     pub resolved_at: BTreeMap<usize, u64>,
+    /// pipelined raw requests whose handler started: (server, connection, sequence number, ms)
+    pub pipe_started: Vec<(usize, usize, usize, u64)>,
+    /// what each pipelining raw client received until the connection ended: (server, bytes, ms of the end)
+    pub pipe_received: Vec<(usize, Vec<u8>, u64)>,
     pub server_done: Vec<Option<(Result<(), String>, u64)>>,
     pub conn_spawned: Vec<usize>,
     pub conn_finished: Vec<usize>,
@@ -649,6 +653,18 @@ async fn handle(ctx: Arc<SrvCtx>, conn: usize, req: http::Request<hyperdriver::B
     let Some(id) = id.filter(|i| *i < ctx.reqs.len()) else {
         // raw actors (faults, probes) use other paths
         let _ = body.collect().await;
+        if let Some(rest) = path.strip_prefix("/fault/pipe/") {
+            // pipelined raw requests: /fault/pipe/<delay ms>/<sequence number>
+            let mut it = rest.split('/');
+            let delay: u64 = it.next().and_then(|d| d.parse().ok()).unwrap_or(0);
+            let seq: usize = it.next().and_then(|d| d.parse().ok()).unwrap_or(0);
+            ctx.obs.lock().unwrap().pipe_started.push((ctx.server, conn, seq, t));
+            if delay > 0 {
+                tokio::time::sleep(Duration::from_millis(delay)).await;
+            }
+            let body = format!("pipelined-{seq}").into_bytes();
+            return Ok(http::Response::builder().status(200).header("x-conn", conn).body(ChunkBody::new(body, 1, 0, true)).unwrap());
+        }
         return Ok(http::Response::builder().status(404).header("x-conn", conn).body(ChunkBody::default()).unwrap());
     };
     let spec = ctx.reqs[id].clone();
@@ -1098,7 +1114,28 @@ async fn run_request(svc: ClientSvc, req: http::Request<ChunkBody>, id: usize, r
 async fn run_fault(client: DuplexClient, f: FaultSpec, obs: O, tls: bool) {
     use tokio::io::{AsyncReadExt, AsyncWriteExt};
     let log = |s: String| obs.lock().unwrap().fault_log.push(s);
-    match f.kind % 10 {
+    // over TLS, half of the byte-level faults happen *inside* a TLS session: the client completes the
+    // handshake, sends its bytes and says goodbye (close_notify) in one go, keeping the transport open
+    if tls && matches!(f.kind % 11, 2 | 3 | 4 | 6) && f.arg & 0x4000 != 0 {
+        if let Ok(s) = client.connect(4096).await {
+            let connector = tokio_rustls::TlsConnector::from(Arc::new(TLS_CONFIGS.with(|c| c.1.clone())));
+            let name = rustls::pki_types::ServerName::try_from("example.com").unwrap();
+            if let Ok(Ok(mut t)) = tokio::time::timeout(Duration::from_secs(2), connector.connect(name, s)).await {
+                let bytes: Vec<u8> = match f.kind % 11 {
+                    2 => (0..(f.arg % 200 + 1)).map(|i| (i as u8).wrapping_mul(37).wrapping_add(0x80)).collect(),
+                    3 => b"GET /fault/truncated HTTP/1.1\r\nhos".to_vec(),
+                    4 => b"POST /fault/body HTTP/1.1\r\nhost: x\r\ncontent-length: 100\r\n\r\n0123456789".to_vec(),
+                    _ => b"PRI * HTTP/2.0\r\n\r\nSM\r\n\r\n"[..(f.arg as usize % 23 + 1)].to_vec(),
+                };
+                let _ = t.write_all(&bytes).await;
+                let _ = t.shutdown().await;
+                log(format!("inside a TLS session: {} bytes of fault kind {}, then close_notify", bytes.len(), f.kind % 11));
+                tokio::time::sleep(Duration::from_millis(40)).await;
+            }
+        }
+        return;
+    }
+    match f.kind % 11 {
         0 => {
             // cancelled connect: the request is queued, the connecting future dropped before the ack
             let fut = client.connect(1024);
@@ -1157,6 +1194,26 @@ async fn run_fault(client: DuplexClient, f: FaultSpec, obs: O, tls: bool) {
                 log(format!("client asked for a {size}-byte pipe"));
             } else {
                 log(format!("connect with a {size}-byte pipe was refused"));
+            }
+        }
+        10 if tls => log("pipelining client skipped (TLS listener)".into()),
+        10 => {
+            // HTTP/1 pipelining: two requests in one write, the first one slow; reads until the server closes
+            if let Ok(mut s) = client.connect(4096).await {
+                let d = f.arg % 40;
+                let req = format!("GET /fault/pipe/{d}/1 HTTP/1.1\r\nhost: x\r\n\r\nGET /fault/pipe/0/2 HTTP/1.1\r\nhost: x\r\n\r\n");
+                let _ = s.write_all(req.as_bytes()).await;
+                let mut got = vec![];
+                let mut b = [0u8; 512];
+                loop {
+                    match tokio::time::timeout(Duration::from_millis(3000), s.read(&mut b)).await {
+                        Ok(Ok(n)) if n > 0 => got.extend_from_slice(&b[..n]),
+                        _ => break,
+                    }
+                }
+                let now = obs.lock().unwrap().now();
+                log(format!("pipelining client (first request slow by {d} ms) received {} bytes until {now} ms", got.len()));
+                obs.lock().unwrap().pipe_received.push((f.server as usize, got, now));
             }
         }
         9 => {
